@@ -74,6 +74,23 @@ def run(repo, rep, tier):
     from . import c04 as _c04
     L.borrow(repo, rep, "R12.2", "C04", _c04.tales_details,
              ("token-rewrap-guard", "slice-one-group"), minimum=2)
+    vi = repo.func("chameleon.compiler.ExpressionTransform."
+                   "visit_Interpolation")
+    gcs = [c for c in ast.walk(vi.node) if isinstance(c, ast.Call)
+           and src(c.func).endswith(".get_compiler")]
+    gc_def = repo.func("chameleon.compiler.ExpressionEngine.get_compiler")
+    pnames = [x.arg for x in gc_def.node.args.args][1:]
+    okh = bool(gcs) and "handle_errors" in pnames
+    for c in gcs:
+        given = dict(zip(pnames, c.args))
+        given.update({k.arg: k.value for k in c.keywords if k.arg})
+        h = given.get("handle_errors")
+        if not (isinstance(h, ast.Constant) and h.value is True):
+            okh = False
+    rep.check(okh, "R12.1", vi.qualname, "the compiler of a ${...} text "
+              "records its token (handle_errors=True): a failure inside the "
+              "interpolation machinery itself is located",
+              construct="interpolation-handles-errors", where=L.where(vi))
     L.state_rule(repo, rep)
 
 
